@@ -22,6 +22,9 @@ def hdlc_patterns(rng, n):
     yield "valid_frames", (b"\x7e" + f) * (n // (len(f) + 1)) + b"\x7e"
     yield "valid_frames_stuffed", (b"\x7e" + H.stuff(f)) * (n // (len(f) + 1)) + b"\x7e"
     yield "never_ending_frame", b"\x7e\xa0\x10\x03\x21\x13" + b"\x55" * n
+    yield "flag_lone_escape", b"\x7e\x7d" * (n // 2)
+    yield "flag_escape_escape", b"\x7e\x7d\x7d" * (n // 3)
+    yield "short_frames_discarded", b"\x7e\xa0\x07\x7d" * (n // 4)
     yield "never_ending_escapes", b"\x7e" + b"\x7d" * n
     yield "overlong_then_flags", b"\x7e\xa0\x10\x03\x21\x13" + b"\x55" * 30 + b"\x7e" * n
     yield "random", bytes(rng.randrange(256) for _ in range(n))
